@@ -282,3 +282,146 @@ impl<T: Eq> PartialEq for HashSet<T> {
     }
 }
 impl<T: Eq> Eq for HashSet<T> {}
+
+// ---- wider std API surface, so that ordinary refactorings of the code under test still compile against the model
+pub enum Entry<'a, K, V> {
+    Occupied(&'a mut HashMap<K, V>, usize),
+    Vacant(&'a mut HashMap<K, V>, K),
+}
+impl<'a, K: Eq, V> Entry<'a, K, V> {
+    pub fn or_insert(self, default: V) -> &'a mut V {
+        self.or_insert_with(|| default)
+    }
+    pub fn or_insert_with<F: FnOnce() -> V>(self, f: F) -> &'a mut V {
+        match self {
+            Entry::Occupied(m, i) => m.e[i].as_mut().map(|(_, v)| v).unwrap(),
+            Entry::Vacant(m, k) => {
+                let mut i = 0;
+                while i < CAP {
+                    if m.e[i].is_none() {
+                        m.e[i] = Some((k, f()));
+                        return m.e[i].as_mut().map(|(_, v)| v).unwrap();
+                    }
+                    i += 1;
+                }
+                out_of_bound()
+            }
+        }
+    }
+    pub fn or_default(self) -> &'a mut V
+    where
+        V: Default,
+    {
+        self.or_insert_with(V::default)
+    }
+    pub fn and_modify<F: FnOnce(&mut V)>(self, f: F) -> Self {
+        match self {
+            Entry::Occupied(m, i) => {
+                if let Some((_, v)) = m.e[i].as_mut() {
+                    f(v);
+                }
+                Entry::Occupied(m, i)
+            }
+            e => e,
+        }
+    }
+}
+impl<K: Eq, V> HashMap<K, V> {
+    pub fn entry(&mut self, k: K) -> Entry<'_, K, V> {
+        match self.pos(&k) {
+            Some(i) => Entry::Occupied(self, i),
+            None => Entry::Vacant(self, k),
+        }
+    }
+    pub fn clear(&mut self) {
+        let mut i = 0;
+        while i < CAP {
+            self.e[i] = None;
+            i += 1;
+        }
+    }
+    pub fn values(&self) -> impl Iterator<Item = &V> {
+        self.iter().map(|(_, v)| v)
+    }
+    pub fn values_mut(&mut self) -> impl Iterator<Item = &mut V> {
+        self.e.iter_mut().filter_map(|x| x.as_mut().map(|(_, v)| v))
+    }
+    pub fn iter_mut(&mut self) -> impl Iterator<Item = (&K, &mut V)> {
+        self.e.iter_mut().filter_map(|x| x.as_mut().map(|(k, v)| (&*k, v)))
+    }
+    pub fn into_keys(self) -> impl Iterator<Item = K> {
+        self.into_iter().map(|(k, _)| k)
+    }
+    pub fn into_values(self) -> impl Iterator<Item = V> {
+        self.into_iter().map(|(_, v)| v)
+    }
+    pub fn remove_entry<Q: ?Sized + Eq>(&mut self, k: &Q) -> Option<(K, V)>
+    where
+        K: Borrow<Q>,
+    {
+        match self.pos(k) {
+            Some(i) => self.e[i].take(),
+            None => None,
+        }
+    }
+    pub fn get_key_value<Q: ?Sized + Eq>(&self, k: &Q) -> Option<(&K, &V)>
+    where
+        K: Borrow<Q>,
+    {
+        match self.pos(k) {
+            Some(i) => self.e[i].as_ref().map(|(k, v)| (k, v)),
+            None => None,
+        }
+    }
+    pub fn drain(&mut self) -> IntoIter<K, V> {
+        std::mem::take(self).into_iter()
+    }
+}
+impl<K: Eq, V> Extend<(K, V)> for HashMap<K, V> {
+    fn extend<I: IntoIterator<Item = (K, V)>>(&mut self, it: I) {
+        for (k, v) in it {
+            self.insert(k, v);
+        }
+    }
+}
+impl<'a, K: Eq, V> IntoIterator for &'a HashMap<K, V> {
+    type Item = (&'a K, &'a V);
+    type IntoIter = Iter<'a, K, V>;
+    fn into_iter(self) -> Iter<'a, K, V> {
+        self.iter()
+    }
+}
+impl<T: Eq> HashSet<T> {
+    pub fn with_capacity(_n: usize) -> Self {
+        Self::new()
+    }
+    pub fn clear(&mut self) {
+        self.m.clear()
+    }
+    pub fn retain<F: FnMut(&T) -> bool>(&mut self, mut f: F) {
+        self.m.retain(|k, _| f(k))
+    }
+    pub fn take(&mut self, t: &T) -> Option<T> {
+        self.m.remove_entry(t).map(|(k, _)| k)
+    }
+    pub fn is_subset(&self, o: &Self) -> bool {
+        self.iter().all(|x| o.contains(x))
+    }
+}
+impl<T: Eq> IntoIterator for HashSet<T> {
+    type Item = T;
+    type IntoIter = std::iter::Map<IntoIter<T, ()>, fn((T, ())) -> T>;
+    fn into_iter(self) -> Self::IntoIter {
+        fn fst<T>(x: (T, ())) -> T {
+            x.0
+        }
+        self.m.into_iter().map(fst::<T> as fn((T, ())) -> T)
+    }
+}
+impl<'a, T: Eq> IntoIterator for &'a HashSet<T> {
+    type Item = &'a T;
+    type IntoIter = Keys<'a, T, ()>;
+    fn into_iter(self) -> Keys<'a, T, ()> {
+        self.iter()
+    }
+}
